@@ -13,6 +13,11 @@ Profiler                                            Lean
 Cache (after the repair of defect #33)
 `_start`: `dsk[key] = DataNode(key, cached value)`   `patchGraph` / `patchParams`
 `_posttask`: `cache.put(key, value, …)`              `storeAfter` (the cachey store may evict: see Props/C52)
+
+CacheProfiler (`profile.py`)
+`self._cache[key] = (metric, t)`                      `live.set key t`
+`for k in state["released"] & self._cache.keys()`     the live entries whose key is in the `released` set of the event's state
+`_finish`: everything still live is closed          `results ++ live`, `live := []`
 -/
 namespace Dask.Diag
 open Dask.Sched
@@ -56,5 +61,26 @@ def storeAfter {α : Type} (store : Map α) (log : List (Ev × State α)) : Map 
       | some v => st.set k v
       | none => st
     | _ => st) store
+
+/-! ## CacheProfiler (`dask/diagnostics/profile.py`) -/
+structure CProf where
+  live : Map Nat := []                       -- `self._cache`: key ↦ cache_time (the metric is not modelled)
+  results : List (Key × Nat × Nat) := []     -- (key, cache_time, free_time)
+
+/-- `_posttask` / `_finish` of `CacheProfiler` on one callback event; `rel` = `state["released"]` as the callback sees it,
+`t` = `default_timer()` -/
+def cprofStep (p : CProf) (e : Ev) (rel : List Key) (t : Nat) : CProf :=
+  match e with
+  | .posttask k =>
+    let live := p.live.set k t
+    { live := live.filter (fun x => !(rel.contains x.1)),
+      results := p.results ++ (live.filter (fun x => rel.contains x.1)).map (fun x => (x.1, x.2, t)) }
+  | .finish _ => { live := [], results := p.results ++ p.live.map (fun x => (x.1, x.2, t)) }
+  | _ => p
+
+def cprofRun {α : Type} (clock : Nat → Nat) : Nat → CProf → List (Ev × State α) → CProf
+  | _, p, [] => p
+  | i, p, e :: rest => cprofRun clock (i + 1) (cprofStep p e.1 e.2.released (clock i)) rest
+
 
 end Dask.Diag
